@@ -163,12 +163,17 @@ impl<T, E> Write<Result<T, E>> {
 pub unsafe trait DerefWrite: Deref {}
 
 // SAFETY: All these types have pure & non-GC-traversing Deref impls
-unsafe impl<T: ?Sized> DerefWrite for &T {}
 unsafe impl<T: ?Sized> DerefWrite for alloc::boxed::Box<T> {}
 unsafe impl<T> DerefWrite for Vec<T> {}
-unsafe impl<T: ?Sized> DerefWrite for alloc::rc::Rc<T> {}
+// SAFETY: References, `Rc` and `Arc` do not own their target uniquely: the same target may be
+// reachable from other GC'd objects (or from none at all, as in `Write::from_mut(&mut &value)`),
+// which a write barrier on the object holding *this* pointer does not cover. They may therefore
+// only propagate a `Write` to `'static` targets, which can never hold `Gc` pointers (this is then
+// equivalent to `Write::from_static`).
+unsafe impl<T: ?Sized + 'static> DerefWrite for &T {}
+unsafe impl<T: ?Sized + 'static> DerefWrite for alloc::rc::Rc<T> {}
 #[cfg(target_has_atomic = "ptr")]
-unsafe impl<T: ?Sized> DerefWrite for alloc::sync::Arc<T> {}
+unsafe impl<T: ?Sized + 'static> DerefWrite for alloc::sync::Arc<T> {}
 
 /// Types which preserve write barriers when indexed.
 ///
